@@ -36,7 +36,9 @@ structure Ph where
   sa : Bool
   T : Nat
   ta : Bool
-  rd : List Char
+  /-- the items that follow the build: `('f',0)`, `('b',0)` communications, `('m',k)` new values in all containers,
+      `('l',r)` rank `r` is late for its next communication (a schedule: no effect on the answer) -/
+  rd : List (Char × Nat)
 
 structure Cfg where
   P : Nat
@@ -91,9 +93,9 @@ def mask? (s : String) : Option (Nat × Bool) :=
   let cs := if alt then cs.dropLast else cs
   (strictNat? (String.ofList cs) 0 15).map fun m => (m, alt)
 
-/-- `<rounds>`: items separated by `.`; a string over {f,b}, or `r<S>-<T>` / `n<S>-<T>` (build again) -/
-def parsePhases (S T : Nat × Bool) (rounds : String) : Option (List Ph) :=
-  if rounds.isEmpty || rounds.length > 60 then none else
+/-- `<rounds>`: items separated by `.`; a string over {f,b}, `m<k>`, `l<r>`, or `r<S>-<T>` / `n<S>-<T>` (build again) -/
+def parsePhases (P : Nat) (S T : Nat × Bool) (rounds : String) : Option (List Ph) :=
+  if rounds.isEmpty || rounds.length > 120 then none else
   let step (acc : Option (List Ph)) (item : String) : Option (List Ph) :=
     match acc with
     | none => none
@@ -109,16 +111,21 @@ def parsePhases (S T : Nat × Bool) (rounds : String) : Option (List Ph) :=
             | some s', some t' => some (phs ++ [{ S := s'.1, sa := s'.2, T := t'.1, ta := t'.2, rd := [] }])
             | _, _ => none
           | _ => none
+        else if c == 'm' || c == 'l' then
+          match strictNat? (String.ofList rest) 0 (if c == 'm' then 9 else P - 1), phs.getLast? with
+          | some v, some ph => some (phs.dropLast ++ [{ ph with rd := ph.rd ++ [(c, v)] }])
+          | _, _ => none
         else if cs.all (fun c => c == 'f' || c == 'b') then
           match phs.getLast? with
-          | some ph => some (phs.dropLast ++ [{ ph with rd := ph.rd ++ cs }])
+          | some ph => some (phs.dropLast ++ [{ ph with rd := ph.rd ++ cs.map fun c => (c, 0) }])
           | none => none
         else none
   match (rounds.splitOn ".").foldl step (some [{ S := S.1, sa := S.2, T := T.1, ta := T.2, rd := [] }]) with
   | none => none
   | some phs =>
-    let nComm := (phs.map fun p => p.rd.length).sum
-    if nComm == 0 || nComm > 8 || phs.length > 4 then none else some phs
+    let nComm := (phs.map fun p => (p.rd.filter fun x => x.1 == 'f' || x.1 == 'b').length).sum
+    let nExtra := (phs.map fun p => (p.rd.filter fun x => x.1 == 'm' || x.1 == 'l').length).sum
+    if nComm == 0 || nComm > 8 || phs.length > 4 || nExtra > 12 then none else some phs
 
 def gatherD (whole : Bool) (d : Data) (l j : Nat) : Val :=
   let b := d.getD l []
@@ -134,6 +141,11 @@ def scatterD (whole add : Bool) (d : Data) (x : Val) (l j : Nat) : Data :=
     else b.modify j fun c => updCell add c (x.getD 0 none)
 
 def clearW (d : Data) : Data := d.map fun b => b.map fun c => { c with w := false }
+
+/-- item `m<k>`: the user assigns new values: component `(l,j)` becomes `v + 1000003*(k+1) + 7*l + j` -/
+def newValues (k : Nat) (d : Data) : Data :=
+  d.zipIdx.map fun (b, l) => b.zipIdx.map fun (c, j) =>
+    { c with v := c.v.map fun v => v + ((1000003 * (k + 1) + 7 * l + j : Nat) : Int) }
 
 def showData (d : Data) : String :=
   "[" ++ ",".intercalate (d.flatten.map fun c => match c.v with | some v => toString v | none => "*") ++ "]"
@@ -190,7 +202,7 @@ def parseCfg (ws : List String) : Option Cfg :=
         if pol == "copy" || pol == "cgs" then some false else if pol == "add" then some true else none
       let dt? : Option Bool := if comm == "buf" then some false else if comm == "dt" then some true else none
       let c1? : Option Bool := if cont == "c1" then some true else if cont == "c2" then some false else none
-      match payk, add?, dt?, c1?, parsePhases S T rounds with
+      match payk, add?, dt?, c1?, parsePhases P S T rounds with
       | some (pay, vk, vbase), some add, some dt, some c1, some phases =>
         if dt && add then none else
         if pol == "cgs" && (dt || pay == 2) then none else
@@ -220,8 +232,8 @@ def run (cfg : Cfg) (sets : Array (List Entry × List Entry)) : String :=
   -- is the derived-datatype variant free of overlapping receive buffers, in every phase?
   let feasible := cfg.phases.all fun ph =>
     let ifs := ifsOf ph
-    let useF := ph.rd.contains 'f'
-    let useB := ph.rd.contains 'b'
+    let useF := ph.rd.any (·.1 == 'f')
+    let useB := ph.rd.any (·.1 == 'b')
     ranks.all fun r =>
       let m := ifs.getD r []
       let snd := m.flatMap (·.2.1.idx)
@@ -254,8 +266,12 @@ def run (cfg : Cfg) (sets : Array (List Entry × List Entry)) : String :=
           b0 := List.replicate ((comm r).sendElems true) [],
           b1 := List.replicate ((comm r).sendElems false) [],
           out := if k == 0 then st.out ++ [showIf (ifs.getD r [])] else showIf (ifs.getD r []) :: st.out }
-      let sts2 := rd.foldl (init := sts1) fun sts dir =>
-        let fwd := dir == 'f'
+      let sts2 := rd.foldl (init := sts1) fun sts item =>
+        if item.1 == 'l' then sts else
+        if item.1 == 'm' then
+          sts.map fun st => { st with cont := { st.cont with c0 := newValues item.2 st.cont.c0, c1 := newValues item.2 st.cont.c1 } }
+        else
+        let fwd := item.1 == 'f'
         -- the "written in this round" marks of the open-entry bookkeeping are reset; values are untouched
         let w (p : Nat) : Cont Data :=
           let c := (sts.getD p default).cont
